@@ -1,6 +1,7 @@
 import Driver.Decode
 import Ysgo.Obs
 import Ysgo.Model.Markup
+import Ysgo.Lemmas.FuelSize
 /-! driver for the `run` stream: a program, a host configuration and an operation list over one or more runners -/
 namespace Ysgo.Drv
 open Ysgo
@@ -95,6 +96,9 @@ def runCase (c : S) : List String := Id.run do
   let extra := ((c.find "cmds").map S.args |>.getD []).map S.str
   let env := hostEnv extra
   let mk := realMarkup
+  -- `Props/C01Fuel.fuel_suffices_reachable`: for a Productive program the bound depending on the program alone is never
+  -- exhausted from a reachable state; other programs get a generous constant (running out is printed as UNMODELLED)
+  let fuel := if Fuel.Productive prog then Fuel.progBound prog else 100000
   let mkRunner : Option RR :=
     match Rng.seedToInt64 seedStr with
     | none => none
@@ -119,7 +123,7 @@ def runCase (c : S) : List String := Id.run do
           else
           let cRaw := (a.getD 1 (.atom "0")).toNat
           let choice := if hr.waitingN > 0 then cRaw % hr.waitingN else cRaw
-          let (r', res) := hr.r.next env mk prog 100000 choice
+          let (r', res) := hr.r.next env mk prog fuel choice
           let wn := match res with | .out (.ok (.options _ os)) => os.length | _ => 0
           let ends := match res with | .out (.ok .ended) => hr.ends + 1 | _ => 0
           let (s, r'') := stateStr r'
